@@ -378,3 +378,22 @@ func zzC12Lookup() {
 	}
 	vReach("end")
 }
+
+// zzC12HeaderName: validateHeaderName against RFC 9110's field-name grammar stated independently (token = 1*tchar:
+// a visible ASCII character that is not a delimiter), for every name of up to 2 (thorough 3) bytes. A name that passes can be put on
+// the wire as "Mcp-Param-<name>" and read back; one that fails is refused when the tool is registered.
+func zzC12HeaderName() {
+	name := vStringN("name", vParam("len"))
+	err := validateHeaderName(name)
+	ok := len(name) > 0
+	for i := 0; i < len(name); i++ {
+		c := name[i]
+		visible := c > 0x20 && c < 0x7F
+		delimiter := c == '"' || c == '(' || c == ')' || c == ',' || c == '/' || c == ':' || c == ';' || c == '<' || c == '=' || c == '>' || c == '?' || c == '@' || c == '[' || c == '\\' || c == ']' || c == '{' || c == '}'
+		if !visible || delimiter {
+			ok = false
+		}
+	}
+	vAssert((err == nil) == ok, "C12.header-name-accepted-iff-it-is-an-http-token")
+	vReach("end")
+}
